@@ -8,8 +8,12 @@ use sophia_api::prelude::*;
 use sophia_api::quad::Spog;
 use sophia_api::term::{SimpleTerm, TermKind};
 use sophia_isomorphism::isomorphic_datasets;
-use sophia_jsonld::{JsonLdOptions, JsonLdParser, JsonLdStringifier, ProcessingMode, RdfDirection};
+use sophia_api::source::StreamError;
+use sophia_jsonld::loader::{NoLoader, StaticLoader};
+use sophia_jsonld::loader_factory::{ClosureLoaderFactory, DefaultLoaderFactory, LoaderFactory};
+use sophia_jsonld::{ContextRef, JsonLdOptions, JsonLdParser, JsonLdSerializer, JsonLdStringifier, Jsonifier, Policy, ProcessingMode, RdfDirection};
 use std::collections::{BTreeMap, BTreeSet};
+use std::io::Write as _;
 use verif_harness::*;
 
 type Q = Spog<ST>;
@@ -21,18 +25,21 @@ fn plain(s: &str) -> ST { lit_dt(s, &format!("{XSD}string")) }
 
 // ------------------------------------------------------------------ options
 #[derive(Clone, Copy, Debug, PartialEq, Eq)]
-struct Opts { mode10: bool, use_rdf_type: bool, dir: u8, spaces: u16 }
+struct Opts { mode10: bool, use_rdf_type: bool, dir: u8, spaces: u16, native: bool }
 impl Opts {
+    /// the canonical way of building the options (fixed order of the setters); the recipes below build the same
+    /// settings through every builder method in random orders
     fn build(&self) -> JsonLdOptions<sophia_jsonld::loader_factory::DefaultLoaderFactory<sophia_jsonld::loader::NoLoader>> {
         let mut o = JsonLdOptions::new()
             .with_processing_mode(if self.mode10 { ProcessingMode::JsonLd1_0 } else { ProcessingMode::JsonLd1_1 })
             .with_use_rdf_type(self.use_rdf_type)
+            .with_use_native_types(self.native)
             .with_spaces(self.spaces);
         o = match self.dir { 1 => o.with_rdf_direction(RdfDirection::I18nDatatype), 2 => o.with_rdf_direction(RdfDirection::CompoundLiteral), _ => o };
         o
     }
     fn show(&self) -> String {
-        format!("mode={} use_rdf_type={} rdf_direction={} spaces={}", if self.mode10 { "1.0" } else { "1.1" }, self.use_rdf_type, ["none", "i18n-datatype", "compound-literal"][self.dir as usize], self.spaces)
+        format!("mode={} use_rdf_type={} rdf_direction={} spaces={}{}", if self.mode10 { "1.0" } else { "1.1" }, self.use_rdf_type, ["none", "i18n-datatype", "compound-literal"][self.dir as usize], self.spaces, if self.native { " use_native_types=true" } else { "" })
     }
 }
 
@@ -73,24 +80,328 @@ fn to_st<T: Term>(t: T) -> ST {
         TermKind::Triple => { let [s, p, o] = t.triple().unwrap(); triple(to_st(s), to_st(p), to_st(o)) }
     }
 }
-fn parse_back(txt: &str, o: &Opts) -> Result<Vec<Q>, String> {
+/// the accessors of a parsed term agree with its kind (sophia_api::term::Term's contract), then the term is copied
+fn term_contract<T: Term>(t: T, bad: &mut Vec<String>) {
+    let k = t.kind();
+    let checks = [("iri", t.iri().is_some(), k == TermKind::Iri), ("bnode_id", t.bnode_id().is_some(), k == TermKind::BlankNode),
+        ("lexical_form", t.lexical_form().is_some(), k == TermKind::Literal), ("datatype", t.datatype().is_some(), k == TermKind::Literal),
+        ("variable", t.variable().is_some(), false), ("triple", t.triple().is_some(), false)];
+    for (name, got, want) in checks { if got != want { let m = format!("PARSER TERM: {name}().is_some() is {got} on a term of kind {k:?}"); if !bad.contains(&m) { bad.push(m); } } }
+    if let Some(tag) = t.language_tag() {
+        if k != TermKind::Literal || t.datatype().map(|d| d.as_str().to_string()) != Some(format!("{RDF}langString")) { let m = format!("PARSER TERM: a term with language tag {:?} has kind {k:?} and datatype {:?}", tag.as_str(), t.datatype().map(|d| d.as_str().to_string())); if !bad.contains(&m) { bad.push(m); } }
+    }
+}
+fn push_quad<T: sophia_api::quad::Quad>(q: T, out: &mut Vec<Q>, bad: &mut Vec<String>) {
+    term_contract(q.s(), bad); term_contract(q.p(), bad); term_contract(q.o(), bad); if let Some(g) = q.g() { term_contract(g, bad); }
+    out.push(([to_st(q.s()), to_st(q.p()), to_st(q.o())], q.g().map(to_st)));
+}
+/// how the parser of the round trip is built: None = from the canonical options; Some = through the recipe
+#[derive(Clone)]
+struct ParseHow { recipe: Vec<Op>, via_default: bool, as_bytes: bool }
+fn parse_back(txt: &str, o: &Opts, how: Option<&ParseHow>, problems: &mut Vec<String>) -> Result<Vec<Q>, String> {
     let txt = txt.to_string();
     let o = *o;
+    let how = how.cloned();
     quiet(true);
     let res = std::panic::catch_unwind(move || {
-        let p = JsonLdParser::new_with_options(o.build());
-        let mut out: Vec<Q> = vec![];
-        let mut src = p.parse_str(&txt);
-        match src.for_each_quad(|q| { out.push(([to_st(q.s()), to_st(q.p()), to_st(q.o())], q.g().map(to_st))); }) {
-            Ok(()) => Ok(out),
-            Err(e) => Err(format!("parse error: {e}")),
+        match how {
+            None => {
+                let p = JsonLdParser::new_with_options(o.build());
+                let mut out: Vec<Q> = vec![]; let mut bad: Vec<String> = vec![];
+                let mut src = p.parse_str(&txt);
+                match src.for_each_quad(|q| push_quad(q, &mut out, &mut bad)) {
+                    Ok(()) => (bad, Ok(out)),
+                    Err(e) => (bad, Err(format!("parse error: {e}"))),
+                }
+            }
+            Some(h) => {
+                // an expand context given by an IRI cannot be loaded by the loaders used here: it is removed before parsing
+                let mut ops = h.recipe.clone();
+                if Expect::of(&ops).expand == 1 { ops.push(Op::NoExpand); }
+                let e = Expect::of(&ops);
+                if ops.is_empty() && h.as_bytes {
+                    let p = if h.via_default { JsonLdParser::default() } else { JsonLdParser::new() };
+                    let mut bad: Vec<String> = check_getters(p.options(), &e).into_iter().map(|p| format!("OPTIONS (JsonLdParser::new): {p}")).collect();
+                    let mut out: Vec<Q> = vec![];
+                    // the module-level functions (default parser) and the parser's own methods, by turns
+                    let mut src = if h.via_default { if txt.len() % 2 == 0 { sophia_jsonld::parser::parse_str(&txt) } else { sophia_jsonld::parser::parse_bufread(txt.as_bytes()) } } else { p.parse_str(&txt) };
+                    let r = match src.for_each_quad(|q| push_quad(q, &mut out, &mut bad)) { Ok(()) => Ok(out), Err(e) => Err(format!("parse error: {e}")) };
+                    (bad, r)
+                } else {
+                    run_recipe(&ops, h.via_default, ParseRun { txt: &txt, expect: &e, as_bytes: h.as_bytes })
+                }
+            }
         }
     });
     quiet(false);
     match res {
-        Ok(r) => r,
+        Ok((bad, r)) => { problems.extend(bad); r }
         Err(e) => Err(format!("PANIC in parser: {}", panic_msg(e))),
     }
+}
+
+// ------------------------------------------------------------------ option recipes: every builder method, in random orders
+const CTX_TXT: &str = "{\"@context\": {\"ex\": \"http://e/\"}}";
+const CTX_IRI: &str = "http://e/ctx";
+const CCTX_IRI: &str = "http://e/cctx";
+#[derive(Clone, Debug, PartialEq)]
+enum Op {
+    Base(Option<&'static str>), CompactArrays(bool), CompactToRelative(bool),
+    LoaderFactoryD, LoaderFactoryF, LoaderClosure, LoaderDefault, LoaderStatic,
+    ExpandIri, ExpandLoaded, ExpandTry, NoExpand, Ordered(bool), Mode(bool), GenRdf(bool), Dir(u8), Native(bool), RdfType(bool),
+    Policy(u8), Spaces(u16), CompactIri, CompactLoaded, CompactTry, NoCompact,
+}
+impl Op {
+    fn is_loader(&self) -> bool { matches!(self, Op::LoaderFactoryD | Op::LoaderFactoryF | Op::LoaderClosure | Op::LoaderDefault | Op::LoaderStatic) }
+    fn show(&self) -> String {
+        match self {
+            Op::Base(Some(b)) => format!("with_base(<{b}>)"), Op::Base(None) => "with_no_base()".into(),
+            Op::CompactArrays(b) => format!("with_compact_arrays({b})"), Op::CompactToRelative(b) => format!("with_compact_to_relative({b})"),
+            Op::LoaderFactoryD => "with_document_loader_factory(DefaultLoaderFactory)".into(), Op::LoaderFactoryF => "with_document_loader_factory(ClosureLoaderFactory)".into(),
+            Op::LoaderClosure => "with_document_loader_closure(fn)".into(), Op::LoaderDefault => "with_default_document_loader::<NoLoader>()".into(), Op::LoaderStatic => "with_document_loader(StaticLoader)".into(),
+            Op::ExpandIri => "with_expand_context(<iri>)".into(), Op::ExpandLoaded => "with_expand_context(loaded)".into(), Op::ExpandTry => "try_with_expand_context(text)".into(), Op::NoExpand => "with_no_expand_context()".into(),
+            Op::Ordered(b) => format!("with_ordered({b})"), Op::Mode(m) => format!("with_processing_mode({})", if *m { "1.0" } else { "1.1" }), Op::GenRdf(b) => format!("with_produce_generalized_rdf({b})"),
+            Op::Dir(0) => "with_no_rdf_direction()".into(), Op::Dir(d) => format!("with_rdf_direction({})", if *d == 1 { "i18n-datatype" } else { "compound-literal" }),
+            Op::Native(b) => format!("with_use_native_types({b})"), Op::RdfType(b) => format!("with_use_rdf_type({b})"), Op::Policy(k) => format!("with_expansion_policy({:?})", policy(*k)), Op::Spaces(n) => format!("with_spaces({n})"),
+            Op::CompactIri => "with_compact_context(<iri>)".into(), Op::CompactLoaded => "with_compact_context(loaded)".into(), Op::CompactTry => "try_with_compact_context(text)".into(), Op::NoCompact => "with_no_compact_context()".into(),
+        }
+    }
+}
+fn policy(k: u8) -> Policy { [Policy::Standard, Policy::Relaxed, Policy::Strict, Policy::Strictest][k as usize % 4] }
+fn show_recipe(ops: &[Op]) -> String { if ops.is_empty() { "JsonLdOptions::new()".into() } else { format!("JsonLdOptions::new().{}", ops.iter().map(|o| o.show()).collect::<Vec<_>>().join(".")) } }
+/// what the options must answer after a recipe: the specification of the setters (each one changes its own
+/// setting and nothing else), starting from the defaults of the JSON-LD API (section 9.3 JsonLdOptions)
+#[derive(Clone, Debug, PartialEq)]
+struct Expect { base: Option<String>, compact_arrays: bool, compact_to_relative: bool, expand: u8, ordered: bool, mode10: bool, gen_rdf: bool, dir: u8, native: bool, rdf_type: bool, policy: u8, spaces: u16, compact: u8 }
+impl Default for Expect {
+    fn default() -> Self { Expect { base: None, compact_arrays: true, compact_to_relative: true, expand: 0, ordered: false, mode10: false, gen_rdf: false, dir: 0, native: false, rdf_type: false, policy: 0, spaces: 0, compact: 0 } }
+}
+impl Expect {
+    fn step(&mut self, op: &Op) {
+        match op {
+            Op::Base(b) => self.base = b.map(|x| x.to_string()), Op::CompactArrays(b) => self.compact_arrays = *b, Op::CompactToRelative(b) => self.compact_to_relative = *b,
+            Op::LoaderFactoryD | Op::LoaderFactoryF | Op::LoaderClosure | Op::LoaderDefault | Op::LoaderStatic => {}
+            Op::ExpandIri => self.expand = 1, Op::ExpandLoaded | Op::ExpandTry => self.expand = 2, Op::NoExpand => self.expand = 0,
+            Op::Ordered(b) => self.ordered = *b, Op::Mode(m) => self.mode10 = *m, Op::GenRdf(b) => self.gen_rdf = *b, Op::Dir(d) => self.dir = *d, Op::Native(b) => self.native = *b, Op::RdfType(b) => self.rdf_type = *b,
+            Op::Policy(k) => self.policy = *k % 4, Op::Spaces(n) => self.spaces = *n,
+            Op::CompactIri => self.compact = 1, Op::CompactLoaded | Op::CompactTry => self.compact = 2, Op::NoCompact => self.compact = 0,
+        }
+    }
+    fn of(ops: &[Op]) -> Expect { let mut e = Expect::default(); for op in ops { e.step(op); } e }
+    fn opts(&self) -> Opts { Opts { mode10: self.mode10, use_rdf_type: self.rdf_type, dir: self.dir, spaces: self.spaces, native: self.native } }
+}
+fn arc_iri(s: &str) -> sophia_jsonld::vocabulary::ArcIri { sophia_iri::Iri::new_unchecked(std::sync::Arc::from(s)) }
+fn loaded_ctx() -> ContextRef { use sophia_jsonld::context::TryIntoContextRef; CTX_TXT.try_into_context_ref().expect("valid context") }
+/// the setters that keep the type of the options
+fn apply<LF>(o: JsonLdOptions<LF>, op: &Op) -> JsonLdOptions<LF> {
+    match op {
+        Op::Base(Some(b)) => o.with_base(arc_iri(b)), Op::Base(None) => o.with_no_base(),
+        Op::CompactArrays(b) => o.with_compact_arrays(*b), Op::CompactToRelative(b) => o.with_compact_to_relative(*b),
+        Op::ExpandIri => o.with_expand_context(sophia_iri::Iri::new_unchecked(CTX_IRI)), Op::ExpandLoaded => o.with_expand_context(loaded_ctx()),
+        Op::ExpandTry => o.try_with_expand_context(CTX_TXT).unwrap_or_else(|e| panic!("try_with_expand_context rejects a valid context: {e}")), Op::NoExpand => o.with_no_expand_context(),
+        Op::Ordered(b) => o.with_ordered(*b), Op::Mode(m) => o.with_processing_mode(if *m { ProcessingMode::JsonLd1_0 } else { ProcessingMode::JsonLd1_1 }),
+        Op::GenRdf(b) => o.with_produce_generalized_rdf(*b),
+        Op::Dir(0) => o.with_no_rdf_direction(), Op::Dir(1) => o.with_rdf_direction(RdfDirection::I18nDatatype), Op::Dir(_) => o.with_rdf_direction(RdfDirection::CompoundLiteral),
+        Op::Native(b) => o.with_use_native_types(*b), Op::RdfType(b) => o.with_use_rdf_type(*b), Op::Policy(k) => o.with_expansion_policy(policy(*k)), Op::Spaces(n) => o.with_spaces(*n),
+        Op::CompactIri => o.with_compact_context(sophia_iri::Iri::new_unchecked(CCTX_IRI)), Op::CompactLoaded => o.with_compact_context(loaded_ctx()),
+        Op::CompactTry => o.try_with_compact_context(CTX_TXT).unwrap_or_else(|e| panic!("try_with_compact_context rejects a valid context: {e}")), Op::NoCompact => o.with_no_compact_context(),
+        Op::LoaderFactoryD | Op::LoaderFactoryF | Op::LoaderClosure | Op::LoaderDefault | Op::LoaderStatic => unreachable!("loader setters change the type"),
+    }
+}
+/// what is done with the options once built (generic in the loader factory, which the loader setters change)
+trait Use { type Out; fn run<LF: LoaderFactory>(self, o: JsonLdOptions<LF>) -> Self::Out; }
+fn fn_loader() -> NoLoader { NoLoader::default() }
+type DF = DefaultLoaderFactory<NoLoader>;
+type FF = ClosureLoaderFactory<NoLoader, fn() -> NoLoader>;
+enum AnyOpts { D(JsonLdOptions<DF>), F(JsonLdOptions<FF>) }
+fn finish<LF: LoaderFactory, U: Use>(mut o: JsonLdOptions<LF>, ops: &[Op], u: U) -> U::Out { for op in ops { if !op.is_loader() { o = apply(o, op); } } u.run(o) }
+/// runs the recipe; `with_document_loader` returns an unnameable type, so at most one of it is applied (later loader setters are skipped)
+fn run_recipe<U: Use>(ops: &[Op], via_default: bool, u: U) -> U::Out {
+    let mut st = AnyOpts::D(if via_default { JsonLdOptions::default() } else { JsonLdOptions::new() });
+    for (i, op) in ops.iter().enumerate() {
+        st = match (st, op) {
+            (AnyOpts::D(o), Op::LoaderStatic) => return finish(o.with_document_loader(StaticLoader::new()), &ops[i + 1..], u),
+            (AnyOpts::F(o), Op::LoaderStatic) => return finish(o.with_document_loader(StaticLoader::new()), &ops[i + 1..], u),
+            (AnyOpts::D(o), Op::LoaderDefault) => AnyOpts::D(o.with_default_document_loader::<NoLoader>()),
+            (AnyOpts::F(o), Op::LoaderDefault) => AnyOpts::D(o.with_default_document_loader::<NoLoader>()),
+            (AnyOpts::D(o), Op::LoaderFactoryD) => AnyOpts::D(o.with_document_loader_factory(DF::new())),
+            (AnyOpts::F(o), Op::LoaderFactoryD) => AnyOpts::D(o.with_document_loader_factory(DF::new())),
+            (AnyOpts::D(o), Op::LoaderFactoryF) => AnyOpts::F(o.with_document_loader_factory(ClosureLoaderFactory::new(fn_loader as fn() -> NoLoader))),
+            (AnyOpts::F(o), Op::LoaderFactoryF) => AnyOpts::F(o.with_document_loader_factory(ClosureLoaderFactory::new(fn_loader as fn() -> NoLoader))),
+            (AnyOpts::D(o), Op::LoaderClosure) => AnyOpts::F(o.with_document_loader_closure(fn_loader as fn() -> NoLoader)),
+            (AnyOpts::F(o), Op::LoaderClosure) => AnyOpts::F(o.with_document_loader_closure(fn_loader as fn() -> NoLoader)),
+            (AnyOpts::D(o), op) => AnyOpts::D(apply(o, op)),
+            (AnyOpts::F(o), op) => AnyOpts::F(apply(o, op)),
+        };
+    }
+    match st { AnyOpts::D(o) => u.run(o), AnyOpts::F(o) => u.run(o) }
+}
+/// every getter (and the Deref to the json-ld crate's options) against the specification
+fn check_getters<LF>(o: &JsonLdOptions<LF>, e: &Expect) -> Vec<String> {
+    let mut bad = vec![];
+    macro_rules! ck { ($name:expr, $got:expr, $want:expr) => { let (g, w) = ($got, $want); if g != w { bad.push(format!("{} is {:?}, expected {:?}", $name, g, w)); } } }
+    let ctx = |c: Option<&ContextRef>, iri: &str| -> u8 { match c { None => 0, Some(ContextRef::Iri(i)) => if i.as_str() == iri { 1 } else { 9 }, Some(ContextRef::Loaded(_)) => 2 } };
+    let dir = |d: Option<RdfDirection>| -> u8 { match d { None => 0, Some(RdfDirection::I18nDatatype) => 1, Some(RdfDirection::CompoundLiteral) => 2 } };
+    ck!("base()", o.base().map(|i| i.as_str().to_string()), e.base.clone());
+    ck!("compact_arrays()", o.compact_arrays(), e.compact_arrays);
+    ck!("compact_to_relative()", o.compact_to_relative(), e.compact_to_relative);
+    ck!("expand_context()", ctx(o.expand_context(), CTX_IRI), e.expand);
+    ck!("ordered()", o.ordered(), e.ordered);
+    ck!("processing_mode()", o.processing_mode() == ProcessingMode::JsonLd1_0, e.mode10);
+    ck!("produce_generalized_rdf()", o.produce_generalized_rdf(), e.gen_rdf);
+    ck!("rdf_direction()", dir(o.rdf_direction()), e.dir);
+    ck!("use_native_types()", o.use_native_types(), e.native);
+    ck!("use_rdf_type()", o.use_rdf_type(), e.rdf_type);
+    ck!("expansion_policy()", o.expansion_policy(), policy(e.policy));
+    ck!("spaces()", o.spaces(), e.spaces);
+    ck!("compact_context()", ctx(o.compact_context(), CCTX_IRI), e.compact);
+    // through Deref<Target = json_ld::Options>
+    ck!("deref().base", o.base.as_ref().map(|i| i.as_str().to_string()), e.base.clone());
+    ck!("deref().compact_arrays", o.compact_arrays, e.compact_arrays);
+    ck!("deref().compact_to_relative", o.compact_to_relative, e.compact_to_relative);
+    ck!("deref().expand_context", ctx(o.expand_context.as_ref(), CTX_IRI), e.expand);
+    ck!("deref().ordered", o.ordered, e.ordered);
+    ck!("deref().processing_mode", o.processing_mode == ProcessingMode::JsonLd1_0, e.mode10);
+    ck!("deref().produce_generalized_rdf", o.produce_generalized_rdf, e.gen_rdf);
+    ck!("deref().rdf_direction", dir(o.rdf_direction), e.dir);
+    ck!("deref().expansion_policy", o.expansion_policy, policy(e.policy));
+    bad
+}
+/// the loader factory is usable
+fn check_loader<LF: LoaderFactory>(o: &JsonLdOptions<LF>) { let _ = o.document_loader_factory().yield_loader(); let _ = o.document_loader(); }
+
+// ------------------------------------------------------------------ sinks
+/// an io::Write that takes 1..5 bytes per call, is sometimes interrupted (write_all must retry), and fails for
+/// good once `budget` bytes have been taken
+struct Chunky { out: Vec<u8>, r: Rng, budget: Option<usize>, calls: usize, interrupted: usize }
+impl std::io::Write for Chunky {
+    fn write(&mut self, buf: &[u8]) -> std::io::Result<usize> {
+        self.calls += 1;
+        if buf.is_empty() { return Ok(0); }
+        if self.r.chance(1, 9) { self.interrupted += 1; return Err(std::io::Error::new(std::io::ErrorKind::Interrupted, "interrupted (verif)")); }
+        if let Some(b) = self.budget { if self.out.len() >= b { return Err(std::io::Error::new(std::io::ErrorKind::Other, "budget exhausted (verif)")); } }
+        let mut k = self.r.range(1, 5).min(buf.len());
+        if let Some(b) = self.budget { k = k.min(b - self.out.len()); }
+        self.out.extend_from_slice(&buf[..k]);
+        Ok(k)
+    }
+    fn flush(&mut self) -> std::io::Result<()> { Ok(()) }
+}
+#[derive(Clone, Copy, Debug, PartialEq)]
+enum Sink { Stringifier, VecWriter, MutVec, Chunked, Budget(usize), Jsonifier, FailingSource(usize) }
+impl Sink { fn name(&self) -> &'static str { match self { Sink::Stringifier => "stringifier", Sink::VecWriter => "Vec<u8>", Sink::MutVec => "&mut Vec<u8>", Sink::Chunked => "writer taking 1..5 bytes per call", Sink::Budget(_) => "writer failing after a byte budget", Sink::Jsonifier => "jsonifier", Sink::FailingSource(_) => "failing quad source" } } }
+/// outcome of the calls on one serializer: the bytes the sink holds at the end, the result of each call, and
+/// what the sink-level checks found
+struct SerOut { bytes: Vec<u8>, results: Vec<Result<(), String>>, problems: Vec<String> }
+struct SerRun<'a> { docs: &'a [Vec<Q>], sink: Sink, expect: &'a Expect, seed: u64 }
+fn feed<S: sophia_api::serializer::QuadSerializer>(ser: &mut S, quads: &[Q], by_source: bool) -> Result<(), String>
+where S::Error: std::fmt::Display {
+    let r = if by_source { ser.serialize_quads(quads.iter().cloned().map(Ok::<Q, MyErr>)).map(|_| ()).map_err(|e| e.to_string()) } else { ser.serialize_dataset(&quads.to_vec()).map(|_| ()).map_err(|e| e.to_string()) };
+    r.map_err(|e| format!("serializer error: {e}"))
+}
+impl<'a> Use for SerRun<'a> {
+    type Out = SerOut;
+    fn run<LF: LoaderFactory>(self, o: JsonLdOptions<LF>) -> SerOut {
+        let mut out = SerOut { bytes: vec![], results: vec![], problems: check_getters(&o, self.expect).into_iter().map(|p| format!("OPTIONS: {p}")).collect() };
+        check_loader(&o);
+        let mut rng = Rng::new(self.seed);
+        match self.sink {
+            Sink::Stringifier => {
+                let mut ser = JsonLdStringifier::new_stringifier_with_options(o);
+                out.problems.extend(check_getters(ser.options(), self.expect).into_iter().map(|p| format!("OPTIONS (JsonLdSerializer::options): {p}")));
+                for d in self.docs { out.results.push(feed(&mut ser, d, rng.chance(1, 2))); }
+                if ser.as_str().as_bytes() != ser.as_utf8() || ser.to_string().as_bytes() != ser.as_utf8() { out.problems.push("SINK: Stringifier::as_str / to_string differ from as_utf8".into()); }
+                out.bytes = ser.as_utf8().to_vec();
+            }
+            Sink::VecWriter => {
+                let mut ser = JsonLdSerializer::new_with_options(Vec::<u8>::new(), o);
+                for d in self.docs { out.results.push(feed(&mut ser, d, rng.chance(1, 2))); }
+                out.bytes = ser.as_utf8().to_vec();
+            }
+            Sink::MutVec => {
+                let mut v: Vec<u8> = vec![];
+                { let mut ser = JsonLdSerializer::new_with_options(&mut v, o); for d in self.docs { out.results.push(feed(&mut ser, d, rng.chance(1, 2))); } }
+                out.bytes = v;
+            }
+            Sink::Chunked | Sink::Budget(_) => {
+                let mut w = Chunky { out: vec![], r: rng.fork(1), budget: if let Sink::Budget(b) = self.sink { Some(b) } else { None }, calls: 0, interrupted: 0 };
+                { let mut ser = JsonLdSerializer::new_with_options(&mut w, o); for d in self.docs { out.results.push(feed(&mut ser, d, rng.chance(1, 2))); } }
+                out.bytes = w.out;
+            }
+            Sink::Jsonifier => {
+                let mut ser = Jsonifier::new_jsonifier_with_options(o);
+                for d in self.docs { out.results.push(feed(&mut ser, d, rng.chance(1, 2))); }
+                // the jsonifier keeps the document of the last call only
+                let a = ser.as_json().to_string();
+                let b = ser.to_json().to_string();
+                if a != b { out.problems.push(format!("SINK: Jsonifier::to_json {b} differs from as_json {a}")); }
+                if !ser.as_json().is_null() { out.problems.push("SINK: Jsonifier::to_json leaves a value behind".into()); }
+                out.bytes = a.into_bytes();
+            }
+            Sink::FailingSource(k) => {
+                let mut v: Vec<u8> = vec![];
+                { let mut ser = JsonLdSerializer::new_with_options(&mut v, o);
+                  for d in self.docs {
+                      let k = k.min(d.len());
+                      let src = d.iter().take(k).cloned().map(Ok::<Q, MyErr>).chain(std::iter::once(Err(MyErr(12))));
+                      match ser.serialize_quads(src) {
+                          Err(StreamError::SourceError(MyErr(12))) => out.results.push(Err("source error (expected)".into())),
+                          Err(e) => { out.problems.push(format!("SINK: a quad source failing after {k} quads gives {e} instead of its own error")); out.results.push(Err(e.to_string())) }
+                          Ok(_) => { out.problems.push(format!("SINK: a quad source failing after {k} quads is reported as a success")); out.results.push(Ok(())) }
+                      }
+                  } }
+                if !v.is_empty() { out.problems.push(format!("SINK: {} bytes were written although the quad source failed", v.len())); }
+                out.bytes = v;
+            }
+        }
+        out
+    }
+}
+
+/// the constructors that take no options (only usable when the recipe is empty)
+fn run_default_ctor(docs: &[Vec<Q>], sink: Sink, seed: u64) -> SerOut {
+    let e = Expect::default();
+    let mut out = SerOut { bytes: vec![], results: vec![], problems: vec![] };
+    let mut rng = Rng::new(seed);
+    match sink {
+        Sink::Jsonifier => { let mut ser = Jsonifier::new_jsonifier(); out.problems.extend(check_getters(ser.options(), &e).into_iter().map(|p| format!("OPTIONS (new_jsonifier): {p}"))); for d in docs { out.results.push(feed(&mut ser, d, rng.chance(1, 2))); } out.bytes = ser.as_json().to_string().into_bytes(); }
+        Sink::Stringifier => { let mut ser = JsonLdStringifier::new_stringifier(); out.problems.extend(check_getters(ser.options(), &e).into_iter().map(|p| format!("OPTIONS (new_stringifier): {p}"))); for d in docs { out.results.push(feed(&mut ser, d, rng.chance(1, 2))); } out.bytes = ser.as_utf8().to_vec(); }
+        _ => { let mut ser = JsonLdSerializer::new(Vec::<u8>::new()); out.problems.extend(check_getters(ser.options(), &e).into_iter().map(|p| format!("OPTIONS (JsonLdSerializer::new): {p}"))); for d in docs { out.results.push(feed(&mut ser, d, rng.chance(1, 2))); } out.bytes = ser.as_utf8().to_vec(); }
+    }
+    out
+}
+struct ParseRun<'a> { txt: &'a str, expect: &'a Expect, as_bytes: bool }
+impl<'a> Use for ParseRun<'a> {
+    type Out = (Vec<String>, Result<Vec<Q>, String>);
+    fn run<LF: LoaderFactory>(self, o: JsonLdOptions<LF>) -> Self::Out {
+        let p = JsonLdParser::new_with_options(o);
+        let mut bad: Vec<String> = check_getters(p.options(), self.expect).into_iter().map(|p| format!("OPTIONS (JsonLdParser::options): {p}")).collect();
+        check_loader(p.options());
+        let mut out: Vec<Q> = vec![];
+        let mut src = if self.as_bytes { p.parse(self.txt.as_bytes()) } else { p.parse_str(self.txt) };
+        let r = match src.for_each_quad(|q| push_quad(q, &mut out, &mut bad)) { Ok(()) => Ok(out), Err(e) => Err(format!("parse error: {e}")) };
+        (bad, r)
+    }
+}
+fn gen_recipe(r: &mut Rng) -> Vec<Op> {
+    if r.chance(1, 10) { return vec![]; }
+    let n = r.range(2, 12);
+    let mut static_seen = false;
+    let mut ops = vec![];
+    for _ in 0..n {
+        let op = match r.below(34) {
+            0 => Op::Base(if r.chance(1, 3) { None } else { Some(r.ps(&["http://e/base/", "http://other/b"])) }), 1 => Op::CompactArrays(r.chance(1, 2)), 2 => Op::CompactToRelative(r.chance(1, 2)),
+            3 => Op::LoaderFactoryD, 4 => Op::LoaderFactoryF, 5 => Op::LoaderClosure, 6 => Op::LoaderDefault, 7 => Op::LoaderStatic,
+            8 => Op::ExpandIri, 9 => Op::ExpandLoaded, 10 => Op::ExpandTry, 11 => Op::NoExpand, 12 => Op::Ordered(r.chance(1, 2)), 13 => Op::GenRdf(r.chance(1, 2)),
+            14 => Op::Policy(r.below(4) as u8), 15 => Op::CompactIri, 16 => Op::CompactLoaded, 17 => Op::CompactTry, 18 => Op::NoCompact,
+            19..=21 => Op::Mode(r.chance(1, 3)), 22..=24 => Op::Dir([0, 0, 1, 2, 2][r.below(5)]), 25..=27 => Op::RdfType(r.chance(1, 2)),
+            28 | 29 => Op::Native(r.chance(1, 4)), _ => Op::Spaces([0, 0, 0, 1, 2, 2, 4, 7, 256, 300][r.below(10)]),
+        };
+        if op.is_loader() && static_seen { continue; }
+        if op == Op::LoaderStatic { static_seen = true; }
+        ops.push(op);
+    }
+    ops
 }
 
 // ------------------------------------------------------------------ a small JSON reader
@@ -149,7 +460,7 @@ impl J {
 
 // ------------------------------------------------------------------ reference reader: JSON-LD 1.1 API, "Deserialize JSON-LD to RDF",
 // restricted to the expanded/flattened shape the serializer emits (no context, no nested node objects); written from the specification
-struct RefRdf { out: Vec<Q>, fresh: usize, dir: u8, quirks: bool }
+struct RefRdf { out: Vec<Q>, fresh: usize, dir: u8, quirks: bool, native: bool }
 impl RefRdf {
     fn id_term(s: &str) -> ST { if let Some(l) = s.strip_prefix("_:") { bnode(l) } else { iri(s) } }
     fn fresh(&mut self) -> ST { self.fresh += 1; bnode(&format!("L{}", self.fresh)) }
@@ -188,7 +499,18 @@ impl RefRdf {
             for (k, _) in entries { if !matches!(k.as_str(), "@value" | "@type" | "@language" | "@direction") { return Err(format!("value object with entry {k}")); } }
             let ty = item.get("@type").map(|t| t.str()).transpose()?;
             if ty == Some("@json") { return Ok(lit_dt(&canon_json(v), &format!("{RDF}JSON"))); }
-            let lex = v.str().map_err(|_| "non-string @value without @json (use_native_types is off)".to_string())?;
+            // JSON-LD 1.1 API 13.4.2 (Object to RDF): true/false are xsd:boolean; a number without fractional part below 1e21 is
+            // an xsd:integer, any other number an xsd:double (both in canonical form), unless @type says otherwise
+            let (lex_owned, native_dt): (String, Option<String>) = match v {
+                J::Str(s) => (s.clone(), None),
+                J::Bool(b) => (b.to_string(), Some(format!("{XSD}boolean"))),
+                J::Num(n) => { let x: f64 = n.parse().map_err(|_| format!("number {n:?} is not readable"))?;
+                    if x.fract() == 0.0 && x.abs() < 1e21 && ty != Some(format!("{XSD}double").as_str()) { (format!("{}", x as i128), Some(format!("{XSD}integer"))) } else { (xsd_double(x), Some(format!("{XSD}double"))) } }
+                _ => return Err(format!("@value {v:?} is neither a string, a number nor a boolean")),
+            };
+            if native_dt.is_some() && !self.native { return Err(format!("native @value {v:?} although use_native_types is off")); }
+            let lex = lex_owned.as_str();
+            let ty = match (ty, &native_dt) { (None, Some(d)) => Some(d.as_str()), (t, _) => t };
             let lang = item.get("@language").map(|t| t.str()).transpose()?;
             let dirn = item.get("@direction").map(|t| t.str()).transpose()?;
             if let Some(l) = lang { if sophia_api::term::LanguageTag::new(l).is_err() { return Err(format!("@language {l:?} is not a well-formed tag")); } }
@@ -206,11 +528,31 @@ impl RefRdf {
         Err(format!("unrecognised object {item:?}"))
     }
 }
+/// XSD canonical form of a double, from Rust's shortest round-trip digits
+fn xsd_double(v: f64) -> String { let s = format!("{v:E}"); match s.split_once('E') { Some((m, e)) if !m.contains('.') => format!("{m}.0E{e}"), _ => s } }
+/// useNativeTypes is lossy by design (JSON-LD 1.1 API 8.5, RDF to Object Conversion 2.4): a valid xsd:integer / xsd:double /
+/// xsd:boolean lexical form is replaced by its value.  The image of a literal under "to a native JSON value and back":
+fn native_image(t: &ST) -> ST {
+    if let SimpleTerm::LiteralDatatype(l, d) = t {
+        let (l, d) = (&**l, d.as_str());
+        let digits = |s: &str| !s.is_empty() && s.bytes().all(|b| b.is_ascii_digit());
+        let unsigned = |s: &str| -> bool { let (m, e) = match s.find(['e', 'E']) { Some(i) => (&s[..i], Some(&s[i + 1..])), None => (s, None) };
+            let m_ok = match m.split_once('.') { Some((a, b)) => (digits(a) && (b.is_empty() || digits(b))) || (a.is_empty() && digits(b)), None => digits(m) };
+            m_ok && e.is_none_or(|e| digits(e.strip_prefix(['+', '-']).unwrap_or(e))) };
+        let body = l.strip_prefix(['+', '-']).unwrap_or(l);
+        let valid = if d == format!("{XSD}integer") { digits(body) } else if d == format!("{XSD}double") { unsigned(body) } else { false };
+        if valid { if let Ok(x) = l.parse::<f64>() { if x.is_finite() {
+            return if x.fract() == 0.0 && x.abs() < 1e21 { lit_dt(&format!("{}", x as i128), &format!("{XSD}integer")) } else { lit_dt(&xsd_double(x), &format!("{XSD}double")) };
+        } } }
+    }
+    t.clone()
+}
+fn native_q(q: &Q) -> Q { ([q.0[0].clone(), q.0[1].clone(), native_image(&q.0[2])], q.1.clone()) }
 /// `quirks`: do what json-ld-core 0.15.1 is known to do differently from the specification when
 /// rdfDirection is set (third-party code, outside /repo): no rdf:value/rdf:language/rdf:direction
 /// triples for compound literals, and no '_' in the i18n datatype when there is no language.
-fn reference_to_rdf(doc: &J, dir: u8, quirks: bool) -> Result<Vec<Q>, String> {
-    let mut r = RefRdf { out: vec![], fresh: 0, dir, quirks };
+fn reference_to_rdf(doc: &J, dir: u8, quirks: bool, native: bool) -> Result<Vec<Q>, String> {
+    let mut r = RefRdf { out: vec![], fresh: 0, dir, quirks, native };
     for n in doc.arr()? { r.node(n, &None, true)?; }
     Ok(r.out)
 }
@@ -258,8 +600,10 @@ impl<'a> G<'a> {
         match self.r.below(9) {
             0 | 1 => plain(self.r.ps(&["x", "y", "", "a\"b\\c\n"])),
             2 => lit_lang(self.r.ps(&["x", "chat"]), self.r.ps(&["en", "fr-BE", "EN"])),
-            3 => lit_dt(self.r.ps(&["1", "02", "x"]), &format!("{XSD}integer")),
-            4 => lit_dt(self.r.ps(&["true", "1.5E0", "z"]), &format!("{XSD}{}", self.r.ps(&["boolean", "double"]))),
+            // (the values of the well-formed numbers are pairwise different, so that use_native_types does not merge two literals)
+            3 => lit_dt(self.r.ps(&["1", "02", "x", "-7"]), &format!("{XSD}integer")),
+            4 => match self.r.below(4) { 0 => lit_dt(self.r.ps(&["true", "false", "z", "1"]), &format!("{XSD}boolean")), 1 => lit_dt(self.r.ps(&["1.5E0", "2.5e1", "z", "1.0E-7"]), &format!("{XSD}double")),
+                                          _ => lit_dt(self.r.ps(&["true", "1.5E0", "z"]), &format!("{XSD}{}", self.r.ps(&["boolean", "double"]))) },
             5 => { self.tag("rdf:JSON literal"); lit_dt(self.r.ps(&["{\"a\":1,\"b\":[true,null,\"x\"]}", "[]", "\"s\"", "12", "null", "{\"@id\":\"http://e/a\",\"z\":{}}"]), &format!("{RDF}JSON")) }
             6 => { self.tag("i18n datatype literal"); lit_dt(self.r.ps(&["x", "שלום"]), &format!("{I18N}{}", self.r.ps(&["en_ltr", "_rtl", "fr-be_rtl", "en_ltr", "ar_rtl"]))) }
             7 => lit_dt("v", "http://e/dt"),
@@ -307,7 +651,7 @@ impl<'a> G<'a> {
     fn list_shape(&mut self) {
         let g = self.graph();
         let len = if self.r.chance(1, 15) { self.tag("long list"); self.r.range(6, 12) } else { self.r.range(1, 3) };
-        let variant = self.r.below(20);
+        let variant = self.r.below(24);
         let typed = variant == 5;
         let head = self.chain(&g, len, 1, typed);
         let cells = self.cells_of(&head);
@@ -336,8 +680,29 @@ impl<'a> G<'a> {
             15 => { self.tag("same list copied in two graphs"); let h = self.other_graph(&g); let copy: Vec<Q> = self.q.iter().filter(|q| q.1 == g && (cells.contains(&q.0[0]) || q.0[2] == head)).cloned().collect(); for mut q in copy { q.1 = h.clone(); self.q.push(q); } }
             16 => { self.tag("list head under rdf:first of a plain node"); let last = self.q.len() - 1; self.q[last].0[1] = rdf("first"); }
             17 => { self.tag("list head under rdf:rest of an IRI or plain node"); let last = self.q.len() - 1; self.q[last].0[1] = rdf("rest"); }
+            18 => { self.tag("label of a non-last cell is also a non-last cell of a list in another graph");
+                    let c = cells[self.r.below(cells.len().max(2) - 1)].clone(); let h = self.other_graph(&g);
+                    let tail = self.chain(&h, 1, 0, false); let it = self.literal();
+                    self.add(&c, &rdf("first"), &it, &h); self.add(&c, &rdf("rest"), &tail, &h);
+                    if self.r.chance(2, 3) { let s2 = self.subject(); self.add(&s2, &ex("q"), &c, &h); } }
+            19 => { self.tag("label of a non-last cell is an item of a list in another graph");
+                    let c = cells[self.r.below(cells.len().max(2) - 1)].clone(); let h = self.other_graph(&g);
+                    let a = self.fresh(); let b = self.fresh(); let it = self.literal();
+                    self.add(&a, &rdf("first"), &c, &h); self.add(&a, &rdf("rest"), &b, &h); self.add(&b, &rdf("first"), &it, &h); self.add(&b, &rdf("rest"), &rdf("nil"), &h);
+                    let s2 = self.subject(); self.add(&s2, &ex("q"), &a, &h); }
+            20 => { self.tag("graph name that is also a list cell of that very graph or of another one");
+                    let c = self.r.pick(&cells).clone(); let gn = Some(c.clone());
+                    if self.r.chance(1, 2) { let o = self.object(); self.add(&ex("a"), &ex("q"), &o, &gn); }
+                    else { let inner = self.chain(&gn, 2, 0, false); let s2 = self.subject(); self.add(&s2, &ex("p"), &inner, &gn); } }
             _ => self.tag("well-formed list"),
         }
+    }
+    fn bad_json_shape(&mut self) {
+        self.tag("ill-formed rdf:JSON literal (the serializer must fail and write nothing)");
+        let (s, g) = (self.subject(), self.graph());
+        let o = lit_dt(self.r.ps(&["{", "[1,", "tru", "", "{\"a\":}"]), &format!("{RDF}JSON"));
+        // in a plain property, or as a list item
+        if self.r.chance(1, 2) { self.add(&s, &ex("p"), &o, &g); } else { let c = self.fresh(); self.add(&s, &ex("p"), &c, &g); self.add(&c, &rdf("first"), &o, &g); self.add(&c, &rdf("rest"), &rdf("nil"), &g); }
     }
     fn type_shape(&mut self) {
         let (s, g) = (self.subject(), self.graph());
@@ -392,8 +757,8 @@ impl<'a> G<'a> {
 fn shuffle<T>(v: &mut Vec<T>, r: &mut Rng) { for i in (1..v.len()).rev() { let j = r.below(i + 1); v.swap(i, j); } }
 
 /// the replayed defect witnesses (DESIGN section 4 rows 11, 12 and the ones found while building), always cases 0..
-fn witness_case(idx: usize) -> Option<(Vec<Q>, Vec<String>, Opts)> {
-    let o = Opts { mode10: false, use_rdf_type: false, dir: 0, spaces: 0 };
+fn witness_data(idx: usize) -> Option<(Vec<Q>, Vec<String>, Opts)> {
+    let o = Opts { mode10: false, use_rdf_type: false, dir: 0, spaces: 0, native: false };
     let (b, c, n) = (bnode("b"), bnode("c"), None::<ST>);
     let q = |s: &ST, p: &ST, o: &ST, g: &Option<ST>| -> Q { ([s.clone(), p.clone(), o.clone()], g.clone()) };
     let cell = |g: &Option<ST>| vec![q(&b, &rdf("first"), &plain("a"), g), q(&b, &rdf("rest"), &rdf("nil"), g)];
@@ -410,35 +775,63 @@ fn witness_case(idx: usize) -> Option<(Vec<Q>, Vec<String>, Opts)> {
     })
 }
 
-fn gen_case(r: &mut Rng, single: bool) -> (Vec<Q>, Vec<String>, Opts) {
-    let opts = Opts { mode10: r.chance(1, 3), use_rdf_type: r.chance(1, 3), dir: [0, 0, 1, 2, 2][r.below(5)], spaces: if r.chance(1, 3) { 2 } else { 0 } };
+fn witness_case(idx: usize) -> Option<Case> {
+    witness_data(idx).map(|(q, tags, o)| Case { docs: vec![q], tags, recipe: recipe_of(&o), via_default: false, sink: Sink::Stringifier, seed: idx as u64 })
+}
+fn gen_dataset(r: &mut Rng, single: bool) -> (Vec<Q>, Vec<String>) {
     let mut g = G { r, q: vec![], tags: vec![], nb: 0 };
     let k = if single { 0 } else { g.r.below(3) }; g.noise(k);
     for _ in 0..(if single { 1 } else { g.r.range(1, 3) }) {
         match g.r.below(12) { 0..=5 => g.list_shape(), 6 => g.type_shape(), 7 | 8 => g.compound_shape(), 9 => g.i18n_shape(), 10 => g.inexpressible(), _ => { let k = g.r.range(1, 4); g.noise(k) } }
     }
+    if g.r.chance(1, 40) { g.bad_json_shape(); }
     let (mut q, tags) = (g.q, g.tags);
     if r.chance(1, 2) { shuffle(&mut q, r); }
-    (dedup(&q), tags, opts)
+    (dedup(&q), tags)
+}
+/// one case: the datasets given to one serializer (usually one), how the options are built, where the output goes
+struct Case { docs: Vec<Vec<Q>>, tags: Vec<String>, recipe: Vec<Op>, via_default: bool, sink: Sink, seed: u64 }
+/// the recipe of the canonical setter order for given settings
+fn recipe_of(o: &Opts) -> Vec<Op> { vec![Op::Mode(o.mode10), Op::RdfType(o.use_rdf_type), Op::Native(o.native), Op::Spaces(o.spaces), Op::Dir(o.dir)] }
+fn gen_case(r: &mut Rng, single: bool) -> Case {
+    // the settings aimed at (the distribution of the first version of this harness) ...
+    let aim = Opts { mode10: r.chance(1, 3), use_rdf_type: r.chance(1, 3), dir: [0, 0, 1, 2, 2][r.below(5)], spaces: if r.chance(1, 3) { 2 } else { 0 }, native: r.chance(1, 8) };
+    // ... are written at random places of a random recipe (a later setter of the same option wins: Expect follows the recipe)
+    let mut recipe = gen_recipe(r);
+    if !recipe.is_empty() { for op in recipe_of(&aim) { if r.chance(2, 3) { let at = r.below(recipe.len() + 1); recipe.insert(at, op); } } }
+    let (quads, mut tags) = gen_dataset(r, single);
+    let mut docs = vec![quads];
+    if r.chance(1, 8) { let (q2, t2) = gen_dataset(r, true); docs.push(q2); tags.extend(t2); tags.push("several serialisations with one serializer".into()); if r.chance(1, 4) { docs.push(vec![]); } }
+    let sink = match r.below(14) { 0..=3 => Sink::Stringifier, 4 => Sink::VecWriter, 5 => Sink::MutVec, 6..=8 => Sink::Chunked, 9 | 10 => Sink::Budget(if r.chance(1, 4) { r.below(4000) } else { r.below(400) }), 11 | 12 => Sink::Jsonifier, _ => Sink::FailingSource(r.below(6)) };
+    Case { docs, tags, recipe, via_default: r.chance(1, 2), sink, seed: r.next() }
 }
 
 /// the property oracle: Some(description) when the round trip fails.  Two readers are applied to the
 /// emitted document: sophia's JsonLdParser (the property as stated) and the reference reader above.
 fn iso(expected: &Vec<Q>, back: &Vec<Q>) -> bool { isomorphic_datasets(expected, back).unwrap_or(false) }
-fn oracle(quads: &[Q], o: &Opts, ser: &Result<String, String>) -> Option<String> {
-    let expected: Vec<Q> = quads.iter().filter(|q| expressible(q)).cloned().collect();
+/// JSON-LD 1.1 API 8.5 (RDF to Object Conversion, 2.5): an rdf:JSON literal whose lexical form is not JSON is an
+/// "invalid JSON literal" error and processing is aborted
+fn has_bad_json(quads: &[Q]) -> bool {
+    quads.iter().any(|q| expressible(q) && matches!(&q.0[2], SimpleTerm::LiteralDatatype(l, d) if d.as_str() == format!("{RDF}JSON") && read_json(l).is_err()))
+}
+fn oracle(quads: &[Q], o: &Opts, ser: &Result<String, String>, how: Option<&ParseHow>, problems: &mut Vec<String>) -> Option<String> {
+    let mut expected: Vec<Q> = quads.iter().filter(|q| expressible(q)).cloned().collect();
+    if has_bad_json(quads) {
+        return match ser { Err(e) if e.contains("invalid JSON literal") => None, Err(e) => Some(format!("SERIALIZER FAILS with an unexpected error on an ill-formed rdf:JSON literal: {e}")), Ok(t) => Some(format!("SERIALIZER ACCEPTS an ill-formed rdf:JSON literal: {}", t.split_whitespace().collect::<Vec<_>>().join(" "))) };
+    }
+    if o.native { expected = dedup(&expected.iter().map(native_q).collect::<Vec<_>>()); }
     let txt = match ser { Ok(t) => t, Err(e) => return Some(format!("SERIALIZER FAILS: {e}")) };
     let flat = txt.split_whitespace().collect::<Vec<_>>().join(" ");
-    let reference = read_json(txt).and_then(|j| reference_to_rdf(&j, o.dir, false));
+    let reference = read_json(txt).and_then(|j| reference_to_rdf(&j, o.dir, false, o.native));
     let ref_back = match &reference {
         Err(e) => return Some(format!("SERIALIZER OUTPUT INVALID (reference reader): {e}; document: {flat}")),
         Ok(back) => dedup(back),
     };
     if !iso(&expected, &ref_back) { return Some(format!("SERIALIZER LOSES INFORMATION (reference reader): read back {} quads [{}] instead of {}; document: {flat}", ref_back.len(), show_ds(&ref_back), expected.len())); }
-    match parse_back(txt, o).map(|b| dedup(&b)) {
+    match parse_back(txt, o, how, problems).map(|b| if o.native { dedup(&b.iter().map(native_q).collect::<Vec<_>>()) } else { dedup(&b) }) {
         Err(e) => Some(format!("PARSER REJECTS a document the reference reader round-trips: {e}; document: {flat}")),
         Ok(back) if !iso(&expected, &back) => {
-            let quirk = dedup(&read_json(txt).and_then(|j| reference_to_rdf(&j, o.dir, true)).unwrap_or_default());
+            let quirk = dedup(&read_json(txt).and_then(|j| reference_to_rdf(&j, o.dir, true, o.native)).unwrap_or_default());
             if o.dir != 0 && iso(&quirk, &back) { Some(format!("PARSER (json-ld-core 0.15.1, rdfDirection={}) DIVERGES from the specification in the known way: parsed back {} quads [{}] instead of {}; document: {flat}", if o.dir == 1 { "i18n-datatype: no '_' before the direction when there is no language" } else { "compound-literal: no rdf:value/rdf:direction/rdf:language triples" }, back.len(), show_ds(&back), expected.len())) }
             else { Some(format!("PARSER DIVERGES from the reference reader: parsed back {} quads [{}] instead of {}; document: {flat}", back.len(), show_ds(&back), expected.len())) }
         }
@@ -526,13 +919,96 @@ fn coq_doc(doc: &J, lits: &[(String, u64)], i: &mut Intern) -> Result<String, St
     Ok(coq_list(tops))
 }
 
+/// splits a concatenation of JSON texts
+fn split_json(txt: &str) -> Result<Vec<(String, J)>, String> {
+    let mut p = JP { s: txt.as_bytes(), i: 0 }; let mut out = vec![];
+    loop { p.ws(); if p.i >= txt.len() { return Ok(out); } let st = p.i; let v = p.value()?; out.push((txt[st..p.i].to_string(), v)); }
+}
+/// `spaces` only changes the white space: 0 = one line; n = n more spaces per nesting level
+fn indent_check(txt: &str, spaces: u16) -> Option<String> {
+    if spaces == 0 { return if txt.contains('\n') { Some("spaces = 0 but the document has line breaks".into()) } else { None }; }
+    if spaces > 255 { return None; } // (the printer takes a u8: see the report)
+    let mut depth_seen = 0usize;
+    for line in txt.split('\n') {
+        let lead = line.len() - line.trim_start_matches(' ').len();
+        if lead % spaces as usize != 0 { return Some(format!("spaces = {spaces} but a line is indented by {lead}")); }
+        depth_seen = depth_seen.max(lead / spaces as usize);
+    }
+    if txt.trim() != "[]" && depth_seen == 0 { return Some(format!("spaces = {spaces} but nothing is indented")); }
+    None
+}
+/// runs the case on the implementation: the reference run (canonical options, one stringifier per dataset) and the run
+/// under test (recipe-built options, the sink of the case, one serializer for all the datasets); returns the text of
+/// each dataset's document from both runs (None where the run under test leaves no complete document)
+fn run_case(c: &Case, opts: &Opts, expect: &Expect, problems: &mut Vec<String>) -> (Vec<Result<String, String>>, Vec<Option<String>>) {
+    let refs: Vec<Result<String, String>> = c.docs.iter().map(|d| serialise(d, opts)).collect();
+    let canon = |t: &str| read_json(t).map(|j| canon_json(&j));
+    quiet(true);
+    let out = std::panic::catch_unwind(|| {
+        if c.recipe.is_empty() && c.via_default && !matches!(c.sink, Sink::Chunked | Sink::Budget(_) | Sink::FailingSource(_) | Sink::MutVec) { run_default_ctor(&c.docs, c.sink, c.seed) }
+        else { run_recipe(&c.recipe, c.via_default, SerRun { docs: &c.docs, sink: c.sink, expect, seed: c.seed }) }
+    });
+    quiet(false);
+    let out = match out { Ok(o) => o, Err(e) => { problems.push(format!("SINK: PANIC in the run under test ({}): {}", c.sink.name(), panic_msg(e))); return (refs, vec![None; c.docs.len()]); } };
+    problems.extend(out.problems.iter().cloned());
+    let mut under: Vec<Option<String>> = vec![None; c.docs.len()];
+    if out.results.len() != c.docs.len() { problems.push(format!("SINK: {} results for {} calls", out.results.len(), c.docs.len())); return (refs, under); }
+    // (a writer that fails after a byte budget may hold a truncated document, cut inside a multi-byte character: only the
+    // documents of the successful calls, which come first, have to be UTF-8)
+    let txt = match String::from_utf8(out.bytes.clone()) {
+        Ok(t) => t,
+        Err(e) if matches!(c.sink, Sink::Budget(_)) => String::from_utf8_lossy(&out.bytes[..e.utf8_error().valid_up_to()]).to_string(),
+        Err(_) => { problems.push("SINK: output is not UTF-8".into()); return (refs, under); }
+    };
+    let held = out.bytes.len();
+    match c.sink {
+        Sink::FailingSource(_) => {}
+        Sink::Jsonifier => {
+            // the value of the last successful call (Null before)
+            let mut want: Option<usize> = None;
+            for (i, r) in refs.iter().enumerate() { match (r, &out.results[i]) { (Ok(_), Ok(())) => want = Some(i), (Err(_), Err(_)) => {}, (Ok(_), Err(e)) => problems.push(format!("SINK: call {i} fails on the jsonifier ({e}) but succeeds on a stringifier")), (Err(e), Ok(())) => problems.push(format!("SINK: call {i} succeeds on the jsonifier but fails on a stringifier ({e})")) } }
+            match want {
+                None => if txt != "null" { problems.push(format!("SINK: jsonifier holds {txt} although no call succeeded")); },
+                Some(i) => { if canon(&txt) != canon(refs[i].as_ref().unwrap()) { problems.push(format!("SINK: jsonifier holds {txt} after call {i}, a stringifier wrote {}", refs[i].as_ref().unwrap())); } else { under[i] = Some(txt.clone()); } }
+            }
+        }
+        _ => {
+            // writers: the successful calls append their documents; with a byte budget the first call that does not fit fails
+            // after filling the budget, and so does every later call that has something to write
+            let budget = if let Sink::Budget(b) = c.sink { Some(b) } else { None };
+            let mut written = 0usize; let mut complete: Vec<usize> = vec![];
+            for (i, r) in refs.iter().enumerate() {
+                let fits = match (r, budget) { (Ok(t), Some(b)) => written + t.len() <= b, _ => true };
+                match (r, &out.results[i]) {
+                    (Err(_), Err(_)) => {}
+                    (Err(e), Ok(())) => problems.push(format!("SINK: call {i} succeeds on {} but fails on a stringifier ({e})", c.sink.name())),
+                    (Ok(t), Ok(())) => { if fits { written += t.len(); complete.push(i); } else { problems.push(format!("SINK: call {i} reports success although the writer refused bytes (budget {budget:?}, document of {} bytes after {written})", t.len())); } }
+                    (Ok(t), Err(e)) => { if fits { problems.push(format!("SINK: call {i} fails on {} ({e}) but succeeds on a stringifier", c.sink.name())); } else { if !e.contains("budget exhausted") { problems.push(format!("SINK: the writer's error is not reported: {e}")); } written = budget.unwrap(); let _ = t; } }
+                }
+            }
+            if held != written { problems.push(format!("SINK: {} holds {} bytes, {} expected (budget {budget:?}; results {:?})", c.sink.name(), held, written, out.results)); }
+            let total: usize = complete.iter().map(|&i| refs[i].as_ref().unwrap().len()).sum();
+            match split_json(&txt[..total.min(txt.len())]) {
+                Ok(parts) if parts.len() == complete.len() => for (k, &i) in complete.iter().enumerate() {
+                    if Ok(canon_json(&parts[k].1)) != canon(refs[i].as_ref().unwrap()) { problems.push(format!("SINK: {} received {} for call {i}, a stringifier wrote {}", c.sink.name(), parts[k].0, refs[i].as_ref().unwrap())); } else { under[i] = Some(parts[k].0.clone()); }
+                },
+                Ok(parts) => problems.push(format!("SINK: {} holds {} documents after {} successful calls: {txt}", c.sink.name(), parts.len(), complete.len())),
+                Err(e) => problems.push(format!("SINK: {} holds invalid JSON ({e}): {txt}", c.sink.name())),
+            }
+        }
+    }
+    // (the jsonifier holds a JSON value, not a text: `spaces` does not apply to it)
+    for t in refs.iter().flatten().chain(under.iter().flatten().filter(|_| c.sink != Sink::Jsonifier)) { if let Some(p) = indent_check(t, opts.spaces) { problems.push(format!("SPACES: {p}: {t:?}")); } }
+    (refs, under)
+}
+
 fn main() {
     let a = parse_args();
     quiet_panics();
     let single = a.rest.iter().any(|x| x == "--single");
     let verbose = a.rest.iter().any(|x| x == "--verbose");
     let mut sum = Summary::default();
-    sum.rule = "case = (dataset of up to ~30 quads = noise quads + 1..3 shapes among: lists (well-formed, unreferenced head, shared, branching, cyclic through rdf:rest or rdf:first, typed rdf:List, extra property, split across graphs, cell reused as subject/graph name elsewhere, copied in two graphs, nested, rdf:nil items), rdf:type with IRI/blank/literal objects, compound-literal shapes, i18n datatypes, rdf:JSON literals, quads JSON-LD cannot express; options = processing mode x use_rdf_type x rdf_direction x indentation); non-trivial = the dataset has an rdf:rest or rdf:direction quad, or at least two graphs; distinct = distinct (dataset, options)".into();
+    sum.rule = "case = (1..3 datasets given to ONE serializer, each of up to ~30 quads = noise quads + 1..3 shapes among: lists (well-formed, unreferenced head, shared, branching, cyclic through rdf:rest or rdf:first, typed rdf:List, extra property, split across graphs, cell reused as subject/graph name/cell/item elsewhere, copied in two graphs, nested, rdf:nil items), rdf:type with IRI/blank/literal objects, compound-literal shapes, i18n datatypes, rdf:JSON literals (well- and ill-formed), quads JSON-LD cannot express; options = a recipe of 0..17 builder calls among all the with_* methods of JsonLdOptions in random order, which fixes processing mode x use_rdf_type x rdf_direction x indentation x use_native_types; sink = stringifier / Vec / &mut Vec / writer taking 1..5 bytes per call with interruptions / writer failing after a byte budget / jsonifier / failing quad source); non-trivial = the first dataset has an rdf:rest or rdf:direction quad, or at least two graphs; distinct = distinct (datasets, settings)".into();
     let base = Rng::new(a.seed);
     let range: Vec<usize> = match a.only { Some(i) => vec![i], None => (0..a.n).collect() };
     let mut by_tag: BTreeMap<String, (u64, u64)> = BTreeMap::new();
@@ -543,43 +1019,95 @@ fn main() {
             let o = JsonLdOptions::new().with_use_rdf_type(flag).with_use_native_types(!flag).with_default_document_loader::<sophia_jsonld::loader::NoLoader>();
             if o.use_rdf_type() != flag { sum.oracle_failures.push(("options".into(), format!("OPTIONS: JsonLdOptions::new().with_use_rdf_type({flag}).with_use_native_types({}).with_default_document_loader() has use_rdf_type() == {} (every with_*document_loader* builder copies use_native_types into use_rdf_type)", !flag, o.use_rdf_type()))); }
         }
+        // the fallible builders refuse what is not a context (and accept one)
+        if JsonLdOptions::new().try_with_expand_context("{\"@context\": ").is_ok() { sum.oracle_failures.push(("options".into(), "OPTIONS: try_with_expand_context accepts a truncated JSON text".into())); }
+        if JsonLdOptions::new().try_with_compact_context("[1, 2").is_ok() { sum.oracle_failures.push(("options".into(), "OPTIONS: try_with_compact_context accepts a truncated JSON text".into())); }
+        if JsonLdOptions::new().try_with_expand_context("{\"no-context\": 1}").is_ok() { sum.oracle_failures.push(("options".into(), "OPTIONS: try_with_expand_context accepts a document without @context".into())); }
+        // the public conversion of the parser's term type
+        { let t = sophia_jsonld::RdfTerm::from(arc_iri("http://e/a")); let mut bad = vec![]; term_contract(&t, &mut bad);
+          if t.kind() != TermKind::Iri || t.iri().map(|i| i.as_str().to_string()) != Some("http://e/a".to_string()) { bad.push("PARSER TERM: RdfTerm::from(ArcIri) is not that IRI".into()); }
+          for b in bad { sum.oracle_failures.push(("parser".into(), b)); } }
+        // observations that are outside the property (reported, not counted as violations)
+        let probe = |l: &str, dt: &str| serialise(&[([ex("s"), ex("p"), lit_dt(l, &format!("{XSD}{dt}"))], None)], &Opts { mode10: false, use_rdf_type: false, dir: 0, spaces: 0, native: true }).unwrap_or_default();
+        if probe("1e2", "integer").contains("\"@value\":100") { sum.bump("note:use_native_types turns the ill-formed \"1e2\"^^xsd:integer into the number 100"); }
+        if probe("1.5", "integer").contains("\"@value\":1.5") { sum.bump("note:use_native_types turns the ill-formed \"1.5\"^^xsd:integer into the number 1.5 (read back as xsd:double)"); }
+        let wide = serialise(&[([ex("s"), ex("p"), ex("o")], None)], &Opts { mode10: false, use_rdf_type: false, dir: 0, spaces: 256, native: false }).unwrap_or_default();
+        if wide.contains('\n') && !wide.contains("\n ") { sum.bump("note:with_spaces(256) prints line breaks without indentation (u16 truncated to u8)"); }
     }
     for idx in range {
         let mut r = base.fork(idx as u64);
-        let (quads, tags, opts) = witness_case(idx).unwrap_or_else(|| gen_case(&mut r, single));
-        let ser = serialise(&quads, &opts);
-        let res = oracle(&quads, &opts, &ser);
+        let case = witness_case(idx).unwrap_or_else(|| gen_case(&mut r, single));
+        let expect = Expect::of(&case.recipe);
+        let opts = expect.opts();
+        let tags = case.tags.clone();
+        let mut problems: Vec<String> = vec![];
+        let (refs, under) = run_case(&case, &opts, &expect, &mut problems);
+        // the property, on every document (the one of the run under test when there is one)
+        let how = if r.chance(1, 2) { Some(ParseHow { recipe: case.recipe.clone(), via_default: case.via_default, as_bytes: r.chance(1, 2) }) } else { None };
+        let mut res: Option<String> = None;
+        for (i, d) in case.docs.iter().enumerate() {
+            let ser: Result<String, String> = match &under[i] { Some(t) => Ok(t.clone()), None => refs[i].clone() };
+            if let Some(f) = oracle(d, &opts, &ser, how.as_ref(), &mut problems) { res.get_or_insert(if case.docs.len() > 1 { format!("{f}; dataset {i}: {}", show_ds(d)) } else { f }); }
+        }
+        problems.sort(); problems.dedup();
         sum.evaluations += 1;
+        let quads = &case.docs[0];
+        let all_ds = case.docs.iter().map(|d| show_ds(d)).collect::<Vec<_>>().join(" ||| ");
         let graphs: BTreeSet<String> = quads.iter().map(|q| q.1.as_ref().map(key_t).unwrap_or_default()).collect();
         let nontrivial = graphs.len() >= 2 || quads.iter().any(|q| q.0[1] == rdf("rest") || q.0[1] == rdf("direction"));
-        if nontrivial && seen.insert(format!("{:?}{}", opts, show_ds(&quads))) { sum.distinct_nontrivial += 1; }
+        if nontrivial && seen.insert(format!("{:?}{}", opts, all_ds)) { sum.distinct_nontrivial += 1; }
         for t in &tags { let e = by_tag.entry(t.clone()).or_default(); e.0 += 1; if res.is_some() { e.1 += 1; } }
         sum.bump(&format!("mode:{}", if opts.mode10 { "1.0" } else { "1.1" }));
         sum.bump(&format!("rdf_direction:{}", ["none", "i18n-datatype", "compound-literal"][opts.dir as usize]));
-        if opts.use_rdf_type { sum.bump("use_rdf_type"); } if opts.spaces > 0 { sum.bump("indented"); }
+        if opts.use_rdf_type { sum.bump("use_rdf_type"); } if opts.spaces > 0 { sum.bump("indented"); } if opts.native { sum.bump("use_native_types"); }
+        sum.bump(&format!("sink:{}", case.sink.name()));
+        sum.bump(&format!("recipe:{} builder calls", match case.recipe.len() { 0 => "0", 1..=5 => "1-5", 6..=10 => "6-10", _ => "11+" }));
+        for op in &case.recipe { let s = op.show(); sum.bump(&format!("builder:{}", s.split('(').next().unwrap_or(""))); }
+        if how.is_some() { sum.bump("parser built through the recipe"); }
+        let context = format!("shapes {tags:?}; options {} built by {}{}; sink {}; dataset: {all_ds}", opts.show(), if case.via_default { "(from Default::default()) " } else { "" }, show_recipe(&case.recipe), case.sink.name());
         if let Some(d) = &res {
-            if verbose { println!("FAIL {idx} {tags:?} [{}] {} => {d}", opts.show(), show_ds(&quads)); }
+            if verbose { println!("FAIL {idx} {tags:?} [{}] {all_ds} => {d}", opts.show()); }
             sum.bump(&format!("oracle:{}", d.split(':').next().unwrap_or("").split('(').next().unwrap_or("").trim()));
-            sum.oracle_failures.push((idx.to_string(), format!("{d}; shapes {tags:?}; options {}; dataset: {}", opts.show(), show_ds(&quads))));
+            sum.oracle_failures.push((idx.to_string(), format!("{d}; {context}")));
         }
-        if sum.samples.len() < 5 && nontrivial && idx % 7 == 0 { sum.samples.push(format!("case {idx} [{}] {} => {}", opts.show(), show_ds(&quads), ser.clone().unwrap_or_else(|e| e).split_whitespace().collect::<Vec<_>>().join(" "))); }
-        // Coq case
+        for p in &problems {
+            if verbose { println!("FAIL {idx} {p}"); }
+            sum.bump(&format!("oracle:{}", p.split(':').next().unwrap_or("").split('(').next().unwrap_or("").trim()));
+            sum.oracle_failures.push((idx.to_string(), format!("{p}; {context}")));
+        }
+        if sum.samples.len() < 5 && nontrivial && idx % 7 == 0 { sum.samples.push(format!("case {idx} [{}; {}; {}] {all_ds} => {}", opts.show(), show_recipe(&case.recipe), case.sink.name(), refs[0].clone().unwrap_or_else(|e| e).split_whitespace().collect::<Vec<_>>().join(" "))); }
+        // Coq case: the model's documents for the calls, against the reference run and the run under test
         let mut it = Intern::new();
-        let cq = coq_list(quads.iter().map(|q| coq_quad(&mut it, q)));
-        let mut i18n = vec![];
-        let lits = literal_objects(&quads, &opts, &mut it, &mut i18n);
-        let observed = match &ser { Ok(txt) => read_json(txt).and_then(|j| coq_doc(&j, &lits, &mut it)), Err(e) => Err(e.clone()) };
-        let copts = format!("(mkOpts {} {} {})", coq_bool(opts.mode10), coq_bool(opts.use_rdf_type), coq_bool(opts.dir == 2));
-        let body = match &observed {
-            Ok(doc) => format!("let t := {} in let d := {cq} in c12_ok t {copts} d {doc} && roundtrip_ok t {copts} d 1000{}", it.table(), i18n.iter().map(|x| format!(" && {x}")).collect::<String>()),
-            Err(e) => format!("false (* no document to compare: {} *)", e.replace("*)", "* )").replace("(*", "( *")),
+        let cds: Vec<String> = case.docs.iter().map(|d| coq_list(d.iter().map(|q| coq_quad(&mut it, q)))).collect();
+        let mut i18n = vec![]; let mut lits: Vec<(String, u64)> = vec![];
+        for d in &case.docs { for e in literal_objects(d, &opts, &mut it, &mut i18n) { if !lits.iter().any(|x| x == &e) { lits.push(e); } } }
+        let collisions: Vec<&(String, u64)> = lits.iter().filter(|e| lits.iter().any(|f| f.0 == e.0 && f.1 != e.1)).collect();
+        let bad: Vec<String> = { let mut v: Vec<String> = vec![]; for d in &case.docs { for q in d { if let SimpleTerm::LiteralDatatype(l, dt) = &q.0[2] { if dt.as_str() == format!("{RDF}JSON") && read_json(l).is_err() { let id = it.id(&q.0[2]).to_string(); if !v.iter().any(|x| x == &id) { v.push(id); } } } } } v };
+        let docs_of = |texts: Vec<&String>, it: &mut Intern| -> Result<String, String> { Ok(coq_list(texts.iter().map(|t| read_json(t).and_then(|j| coq_doc(&j, &lits, it))).collect::<Result<Vec<_>, _>>()?)) };
+        let ref_docs = docs_of(refs.iter().flatten().collect(), &mut it);
+        let under_docs: Option<Result<String, String>> = match case.sink {
+            Sink::Jsonifier | Sink::FailingSource(_) | Sink::Budget(_) => None,
+            _ => if under.iter().zip(&refs).all(|(u, r)| u.is_some() == r.is_ok()) { Some(docs_of(under.iter().flatten().collect(), &mut it)) } else { None },
         };
-        if a.only.is_some() { println!("CASE {idx}: {tags:?} {} :: {}\n => oracle {:?}\n{}\nCoq: {body}", opts.show(), show_ds(&quads), res, ser.clone().unwrap_or_else(|e| e)); }
+        let json_obs: Option<Result<String, String>> = if case.sink == Sink::Jsonifier { Some(match under.iter().flatten().next_back() { Some(t) => read_json(t).and_then(|j| coq_doc(&j, &lits, &mut it)).map(|d| format!("(Some {d})")), None => Ok("None".to_string()) }) } else { None };
+        let copts = format!("(mkOpts {} {} {})", coq_bool(opts.mode10), coq_bool(opts.use_rdf_type), coq_bool(opts.dir == 2));
+        let body = if !collisions.is_empty() { format!("false (* two literals of the dataset have the same value object: {collisions:?} *)") } else {
+            match (&ref_docs, under_docs.as_ref().unwrap_or(&Ok(String::new())), json_obs.as_ref().unwrap_or(&Ok(String::new()))) {
+                (Ok(rd), Ok(ud), Ok(jo)) => {
+                    let obs = if under_docs.is_some() { format!("[{rd}; {ud}]") } else { format!("[{rd}]") };
+                    let rt: String = (0..case.docs.len()).map(|k| format!(" && roundtrip_ok t {copts} (nth {k} ds []) 1000")).collect();
+                    format!("let t := {} in let ds := {} in calls_ok t {copts} {} ds {obs}{}{rt}{}", it.table(), coq_list(cds.iter().cloned()), coq_list(bad.iter().cloned()),
+                        if json_obs.is_some() { format!(" && jsonifier_ok t {copts} {} ds {jo}", coq_list(bad.iter().cloned())) } else { String::new() }, i18n.iter().map(|x| format!(" && {x}")).collect::<String>())
+                }
+                (Err(e), _, _) | (_, Err(e), _) | (_, _, Err(e)) => format!("false (* no document to compare: {} *)", e.replace("*)", "* )").replace("(*", "( *")),
+            }
+        };
+        if a.only.is_some() { println!("CASE {idx}: {context}\n => oracle {:?} {:?}\nreference run: {:?}\nrun under test: {:?}\nCoq: {body}", res, problems, refs, under); }
         cases.push((idx, body));
     }
     for (t, (n, f)) in &by_tag { sum.bump_by(&format!("shape:{t}"), *n); if verbose { println!("{f:5}/{n:5} {t}"); } }
     if a.only.is_none() {
-        sum.shards = write_shards(&a.out, "From Sophia.C12 Require Import Model.\n", &cases, a.shards);
+        sum.shards = write_shards(&a.out, "From Sophia.C12 Require Import Model Calls.\n", &cases, a.shards);
         sum.extra.push(("coq_cases".into(), cases.len().to_string()));
         std::fs::write(format!("{}/summary.json", a.out), sum.to_json()).unwrap();
     }
